@@ -79,6 +79,15 @@ inductive Plan where
   /-- the same call before the repair (finding F201): the partially moved `self` was dropped when the
       async fn returned, i.e. stdin was closed only after the wait had completed -/
   | heldUnfixed
+  /-- `child.wait()` with `stdout` piped but left inside the `Child` (stdin and stderr taken or null): the
+      untaken handle lives inside the wait future and is dropped when the wait has completed, never before.
+      The drop is modelled as "the reader of that stream starts after the wait" (what it reads is discarded). -/
+  | outHeld
+  /-- the same with `stderr` left inside the `Child` -/
+  | errHeld
+  /-- `Command::status()` / `child.wait()` with nothing taken: stdin is dropped first, stdout and stderr
+      live until the wait has completed -/
+  | allHeld
   deriving DecidableEq, Repr
 
 /-- `deps a b`: activity `a` starts only when `b` is done -/
@@ -92,6 +101,11 @@ def Plan.deps : Plan → Act → Act → Bool
   | .seq, .Re, .W => true
   | .held, .Wt, .W => true
   | .heldUnfixed, .W, .Wt => true
+  | .outHeld, .Ro, .Wt => true
+  | .errHeld, .Re, .Wt => true
+  | .allHeld, .Wt, .W => true
+  | .allHeld, .Ro, .Wt => true
+  | .allHeld, .Re, .Wt => true
   | _, _, _ => false
 
 /-- program counter of the wait -/
